@@ -101,10 +101,15 @@ WriteContractObs(v, e, x, viaWrite) ==
       coroC == SelectSeq(Hs(D, v, e, "C"), LAMBDA h : D.hs[h].coro)
       changed == newv # PO.val[v][e]
       newTasks == Ev.obs.ntasks - PrevObs.ntasks
+      \* switch siblings that the rule flipped may raise Change events of their own (C14 neither demands nor forbids it): their
+      \* coroutine handlers may account for further tasks
+      sibC == Cardinality({h \in DOMAIN D.hs : D.hs[h].v = v /\ D.hs[h].e # e /\ D.hs[h].ev = "C" /\ D.hs[h].coro
+                                                 /\ QO.val[v][D.hs[h].e] # PO.val[v][D.hs[h].e]})
+      TasksAre(n) == newTasks >= n /\ newTasks <= n + sibC
   IN /\ (viaWrite => SameBag([i \in DOMAIN wlog |-> wlog[i].h], plainW)
                       /\ \A i \in DOMAIN wlog : wlog[i].req = x /\ wlog[i].seen = PO.val[v][e] /\ ~wlog[i].late)
      /\ (~viaWrite => wlog = <<>>)
-     /\ (vetoed => QO.val = PO.val /\ QO.pub = <<>> /\ clog = <<>> /\ newTasks = Len(coroW))
+     /\ (vetoed => QO.val = PO.val /\ QO.pub = <<>> /\ clog = <<>> /\ TasksAre(Len(coroW)))
      /\ ((~vetoed /\ TypeOK(D, v, x)) =>
            /\ (PO.ven[v] => Len(sets) = 1) /\ (~PO.ven[v] => Len(sets) = 0)
            /\ (PO.ven[v] /\ D.vecs[v].een[e] /\ ~(D.vecs[v].kind = "blob" /\ newv = None) =>
@@ -113,8 +118,8 @@ WriteContractObs(v, e, x, viaWrite) ==
                ELSE IF changed
                THEN /\ SameBag([i \in DOMAIN clog |-> clog[i].h], plainC)
                     /\ \A i \in DOMAIN clog : clog[i].old = PO.val[v][e] /\ clog[i].new = newv
-                    /\ newTasks = (IF viaWrite THEN Len(coroW) ELSE 0) + Len(coroC)
-               ELSE clog = <<>> /\ newTasks = (IF viaWrite THEN Len(coroW) ELSE 0)))
+                    /\ TasksAre((IF viaWrite THEN Len(coroW) ELSE 0) + Len(coroC))
+               ELSE clog = <<>> /\ TasksAre(IF viaWrite THEN Len(coroW) ELSE 0)))
 \* C14: plain Read handlers run before a value is published: every publication of a vector shows, for each enabled element that
 \* has a plain Read handler, at least one invocation of it in the same operation (a defBLOB carries no value and reads nothing)
 ReadContractObs ==
